@@ -84,7 +84,7 @@ u64 Timer::GetMaxSkip() const {
 }
 
 void Timer::Skip(u64 ticks) {
-    if (pause || count_mode == CountMode::EventCount)
+    if (ticks == 0 || pause || count_mode == CountMode::EventCount)
         return;
 
     if (counter == 0) {
